@@ -466,6 +466,8 @@ pub struct WorkerStateSnapshot {
     /// (resource rq id, task ids in backlog order)
     pub prefilled: Vec<(u32, Vec<TaskId>)>,
     pub blocked_requests: Vec<(u32, ResourceVariantId)>,
+    /// The members of `blocked_requests` the allocator could serve right now
+    pub blocked_requests_satisfiable_now: Vec<(u32, ResourceVariantId)>,
     pub known_workers: Vec<WorkerId>,
     pub allocator: AllocatorSnapshot,
 }
@@ -586,6 +588,17 @@ impl SimWorker {
             .map(|(rq, rv)| (rq.as_num(), *rv))
             .collect();
         blocked_requests.sort_unstable();
+        let mut blocked_requests_satisfiable_now: Vec<_> = state
+            .blocked_requests
+            .iter()
+            .filter(|(rq, rv)| {
+                state
+                    .allocator
+                    .is_enabled(state.resource_rq_map.get(*rq).get(*rv))
+            })
+            .map(|(rq, rv)| (rq.as_num(), *rv))
+            .collect();
+        blocked_requests_satisfiable_now.sort_unstable();
         let mut known_workers: Vec<WorkerId> = state.worker_addresses.keys().copied().collect();
         known_workers.sort_unstable();
         WorkerStateSnapshot {
@@ -593,6 +606,7 @@ impl SimWorker {
             running,
             prefilled,
             blocked_requests,
+            blocked_requests_satisfiable_now,
             known_workers,
             allocator: state.allocator.verif_snapshot(),
         }
